@@ -206,19 +206,22 @@ class replace_op(base_op_state):
         revert_point = plan.current_state
         old = plan.state.get_conflicting_slot(self.pkg)
         # probably should just convert to an add...
-        force_old = bool(plan.state.check_limiters(old))
         assert old is not None
         plan.state.remove_slotting(old)
         old_choices = plan.pkg_choices[old]
         # assertion for my own sanity...
         assert revert_point == plan.current_state
         plan._remove_pkg_blockers(old_choices)
+        # does old conflict with the limiters left once its own blockers are
+        # gone?  That's the state both the failure path below and revert
+        # (which runs before old's blockers are restored) put it back into.
+        force_old = bool(plan.state.check_limiters(old))
         l = plan.state.fill_slotting(self.pkg, force=self.force)
         if l:
             # revert... limiter.
-            l2 = plan.state.fill_slotting(old)
+            l2 = plan.state.fill_slotting(old, force=force_old)
             plan.backtrack(revert_point)
-            assert not l2
+            assert bool(l2) == force_old
             return l
 
         # wipe olds blockers.
